@@ -5,7 +5,7 @@ from nvlib import (Worker, WorkerCrash, WorkerTimeout, Stats, Violation, shard_s
 PROP = "C07"
 RULE = ("enumeration inside the harness: for each of the 68 CPUs the leading 16-bit patterns (quick: every 8th, "
         "thorough: all 65,536) x 1 (quick) / 3 (thorough) tails (zeros, ones, keyed) are disassembled at address 0x100; "
-        "for the CPUs with 32-bit instruction words additionally every 61st (quick) / 13th (thorough) leading half "
+        "for the CPUs with 32-bit instruction words additionally every 65th (quick) / 13th (thorough) leading half "
         "word x 37 structured second half words (each single bit, each adjacent bit pair, 6 masks); every rendering "
         "that is not an 'unknown' one is fed to the real assembler (in-process, sanitized, forked per chunk) at the "
         "same address; if it is accepted the produced bytes followed by the original tail are disassembled again and "
@@ -85,7 +85,7 @@ def scan(w, s, name, tier, kinds_wanted, known, prop, survey, align=0):
     if align == 4:
         # 32-bit instruction words: structured second half words (single bits, adjacent bit pairs, masks) on a
         # stride that is coprime to every field width
-        passes.append(dict(step="61" if tier == "quick" else "13", tails="0", stails="37", lo=str(7 if tier == "quick" else 3)))
+        passes.append(dict(step="65" if tier == "quick" else "13", tails="0", stails="37", lo="3"))   # quick is a subset of thorough
     anomalies = b""
     tot = dict(evals=0, accepted=0, closed=0, unknown=0, stripped=0)
     for ps in passes:
@@ -108,6 +108,14 @@ def scan(w, s, name, tier, kinds_wanted, known, prop, survey, align=0):
     s.count("total.accepted_stripped", int(r["stripped"]))
     if int(r["accepted"]) == 0:
         s.count("vacuous_cpu." + name)
+    if len(s.samples) < 2:
+        try:
+            pat = bytes([0x43, 0x21, 0x12, 0x34, 0x56, 0x78, 0x9a, 0xbc])
+            d = w.dis(name, 256, pat, count=1)
+            s.sample(dict(cpu=name, bytes=pat.hex(), first_rendering=d[0][2] if d else None, decoded=int(r["evals"]),
+                          accepted_by_assembler=int(r["accepted"]), same_rendering_again=int(r["closed"])))
+        except (WorkerCrash, WorkerTimeout):
+            pass
     crash_detail = ""
     try:
         with open(w.errpath, "rb") as f:
